@@ -120,7 +120,12 @@ def main():
             combos = [(300, 300), (1, 70000), (3, 33000), (2000, 100), (1, 300000), (40, 30000), (256, 200), (1, 65473),
                       (1, 65474), (1, 65475)] + [(ck.rng.randrange(2, 600), ck.rng.randrange(1, 2000)) for _ in range(10)]
             for i, (n, sz) in enumerate(combos):
-                big_cases.append({"id": i, "kind": "batch", "calls": n, "size": sz})
+                big_cases.append({"id": i, "kind": "batch", "calls": n, "size": sz, "then": i % 2 == 0})
+            # queues of unequal calls: a long call behind a long queue of short ones, long calls in a row, ...
+            for sizes in ([1000] * 40 + [20000], [100] * 200 + [40000], [20000, 20000, 70000], [70000, 70000],
+                          [30000] + [10] * 50 + [30000], [ck.rng.randrange(1, 3000) for _ in range(60)] + [ck.rng.randrange(16000, 90000)]):
+                big_cases.append({"id": len(big_cases), "kind": "batch", "sizes": sizes, "calls": len(sizes),
+                                  "size": max(sizes), "then": True})
             inp = "\n".join(json.dumps(c) for c in big_cases) + "\n"
             rc_, out_ = sh(os.path.join(root, "target-nohook", "debug", "biglimit"), timeout=900, input=inp)
             res = {}
@@ -130,12 +135,15 @@ def main():
                     res[r["id"]] = r
             for c in big_cases:
                 r = res.get(c["id"], {"crash": True})
-                if not (r.get("res") == "ok" and r.get("writes") == 1 and r.get("content_ok")):
+                if not (r.get("res") == "ok" and r.get("writes") == 1 and r.get("content_ok")
+                        and r.get("then_ok") in (None, True)):
                     big_bad += 1
                     ck.violation("production limit: %d pipelined calls of %d payload bytes then one flush reached the transport "
-                                 "as %s write(s) %s (content %s), expected one write of %s bytes" % (
-                                     c["calls"], c["size"], r.get("writes"), r.get("write_sizes"),
-                                     "ok" if r.get("content_ok") else "DIFFERS", r.get("expected_bytes")),
+                                 "as %s write(s) %s (content %s; a small call sent afterwards: %s), expected one write of %s "
+                                 "bytes and then one write of that call alone" % (
+                                     c["calls"], c.get("sizes", c["size"]) if len(c.get("sizes", [])) < 8 else "up to %d" % c["size"],
+                                     r.get("writes"), r.get("write_sizes"),
+                                     "ok" if r.get("content_ok") else "DIFFERS", r.get("then_ok"), r.get("expected_bytes")),
                                  {"side": "out-production", "case": c, "impl": r}, tag="big%d" % c["id"])
     # coverage: free space at message start, growth steps spanned, refusals
     free = set()
